@@ -21,7 +21,9 @@ import (
 	"github.com/free5gc/go-upf/pkg/factory"
 )
 
-const NPeers = 3 // A (host 2), B (host 3), C (host 4; never associates: the "wrong peer")
+// Peers: A (host 2), B (host 3), C (host 4; never associates: the "wrong peer"), T1/T2 (hosts 5,6: fresh node
+// ids used for session takeover; sockets exist only to observe that nothing is mis-sent there).
+const NPeers = 5
 
 var peers [NPeers]*netx.Sock // process-wide: peers are stateless sockets
 
